@@ -13,7 +13,8 @@ from twisted.application import service
 from twisted.internet import reactor
 
 from zope.interface import implementer
-from allmydata.interfaces import RIStorageServer, IStatsProducer
+from allmydata.interfaces import RIStorageServer, IStatsProducer, \
+     DataTooLargeError
 from allmydata.util import fileutil, idlib, log, time_format
 import allmydata # for __full_version__
 
@@ -581,6 +582,16 @@ class StorageServer(service.MultiService):
             after applying the vectors.
         """
         remaining_shares = {}
+
+        # Refuse the whole request before touching any share if one of the
+        # write vectors that is going to be applied does not fit:
+        # MutableShareFile.writev would otherwise raise DataTooLargeError
+        # after earlier vectors, and earlier shares, had been written.
+        for (testv, datav, new_length) in test_and_write_vectors.values():
+            if new_length != 0:
+                for (offset, data) in datav:
+                    if offset + len(data) > MutableShareFile.MAX_SIZE:
+                        raise DataTooLargeError()
 
         for sharenum in test_and_write_vectors:
             (testv, datav, new_length) = test_and_write_vectors[sharenum]
